@@ -16,6 +16,18 @@ CHECKS = {
    technique="bounded exhaustive enumeration of bank configurations x item sequences against a reference layout model plus invariants on the real spans",
    text="All bank configurations of a structured grid (1..2 banks, thorough 3; address units 1/3/8/16 bits; sized/unbounded; fill; labelalign; second window adjacent / 1-bit gap / 1-unit gap / 1-bit overlap / before / without output; both definition orders) x all item sequences up to a length: the reference layout decides which programs must be rejected (an error is then required) and, on success, where every item must sit; the invariants no-overlap / inside-the-bank / gaps-zero / exact-length are evaluated on the real spans and bits.",
    note="Only the direction illegal => rejected is demanded. Zero-size banks/items carry no verdict. The off-by-one in fill_banks found by this check was repaired (fix: e3416df)."),
+ "C08": dict(level="exploration", design="DESIGN.md §4 C08",
+   technique="exhaustive differential execution of every generated program and the whole corpus under the four switch combinations x budgets",
+   text="Every program of the C01 generators (rule sets of 1..2 templates x all pool lines, one block and one block per rule; item sequences), of the nine C02 value-dependent families, the skeleton chains and every file of the repository's corpus and examples is assembled under the four combinations of the two --debug-no-optimize-* switches at budgets {1,3,10,30} (chains 1..30); success/failure, bits and symbol values must be identical.",
+   note="Message texts are not compared. Two genuine divergences are recorded as known findings (blank between adjacent pattern literals; unoptimised resolver needing a larger budget), each recognised by an input-side classification, every other difference is a violation."),
+ "C09": dict(level="model_checking", design="DESIGN.md §4 C09",
+   technique="exhaustive enumeration of programs x budget rows on the real resolver loop; monotonicity relation between runs",
+   text="Every program of the nine value-dependent families, the skeleton grid (chains needing up to 14 passes, with and without an oscillator), asm-block macros with local labels and #assert programs is assembled under a row of budgets (quick {1,2,3,4,5,10,11,30}, thorough 1..31): a success at N must recur with identical bits and symbols at every larger budget, the reported number of passes never exceeds the budget, failures are clean.",
+   note="The implementation is compared with itself across budgets; states = distinct (program, outcome row), transitions = passes executed. Two defects found by this check were repaired (fix: 7b38a8a, bde47c9)."),
+ "C16": dict(level="model_checking", design="DESIGN.md §4 C16, §3.6",
+   technique="exhaustive enumeration of condition trees x constant valuations x define assignments against a reference interpreter (ifworld)",
+   text="Six complete families — condition trees (all chain shapes to a depth, all condition forms, all valuations, constants before/after/behind alias chains), feeding chains in all textual orders, references to arm-local symbols, define assignments (every subset of {A,B,C} x 8 values, hierarchical/undeclared/dead-arm/label names), undecidable and non-boolean conditions, and a driver sub-grid with every -d spelling — are compared (success, marker bytes, visible symbols, or an error) with a reference interpreter written from the property statement.",
+   note="states = distinct worlds (visible items + known constants) reached by the model, transitions = splices. Cases the statement does not determine (a name declared twice among visible items, lazily decidable conditions, local scoping across arm boundaries) carry no verdict. A defect found was repaired (fix: 034af25)."),
  "C10": dict(level="exploration", design="DESIGN.md §4 C10",
    technique="exhaustive enumeration of job histories and thread placements in one process against fresh-process baselines; repetition over fresh processes for the hash-seed dimension (sampled, labelled)",
    text="15 jobs built to collide on every conceivable cache key (same file names, mnemonics, symbol names, format strings; different rule bodies, constants, banks, includes, defines) and to have several equally-ranked diagnostics. All histories of <=3 (thorough <=4) jobs in one process, every job on main/fresh threads and every ordered pair on two concurrent threads must reproduce, byte for byte, the record (bits, 23 formatted outputs, written files, printed diagnostics) of the job alone in a fresh process; fresh-process repetition of the real binary samples the per-process hash seed.",
